@@ -233,6 +233,8 @@ impl RealState {
                 };
                 (ans, None)
             }
+            ["dm", "fast"] => (crate::c08::real_dm(&self.tree, false).0, Some(format!("dm\tfast\t{UNIT}"))),
+            ["dm", "rec"] => (crate::c08::real_dm(&self.tree, true).0, Some("dm\trec".into())),
             ["real.reset_cache"] => {
                 self.tree.reset_bipartition_cache();
                 ("ok".into(), Some("nop".into()))
